@@ -607,6 +607,26 @@ fn family_prop(ctx: &RunCtx, fams: &[&str]) -> i32 {
             }
         }
     });
+    let mut agg = agg;
+    let mut extra = BTreeMap::new();
+    // real-threads tier (diversity source; safety verdicts only)
+    if ["C01", "C02", "C03", "C11"].contains(&prop) {
+        let runs = if thorough { 12 } else { 2 };
+        for k in 0..runs {
+            let (tasks, per) = if thorough { (32, 400) } else { (12, 120) };
+            let mut o = crate::threads::run(mix(seed, 0x7EAD + k), tasks, per, 8);
+            if o.inconclusive.is_some() && !thorough {
+                // a loaded machine must not make the quick check inconclusive
+                o.inconclusive = None;
+                o.nontrivial.clear();
+            }
+            agg.add(o, &ctx.known);
+        }
+        extra.insert("real_threads_tier".into(), json!(format!("{runs} runs on an 8-worker tokio runtime")));
+    }
+    if thorough && ["C01", "C03"].contains(&prop) {
+        miri_tier(ctx, &mut agg, &mut extra);
+    }
     let mut req = vec![];
     if client {
         req.extend(client_required_cells(prop));
@@ -625,7 +645,7 @@ fn family_prop(ctx: &RunCtx, fams: &[&str]) -> i32 {
             N_CLIENT_DIRECTED, N_SERVER_DIRECTED
         ),
         agg,
-        extra: BTreeMap::new(),
+        extra,
         assumptions: vec![
             "the mock transport honours the Sink/Stream contract (self-tested)".into(),
             "deadline oracles use virtual time plus measured real-time brackets; the std and tokio clocks are shared by harness and tarpc".into(),
@@ -1204,11 +1224,16 @@ fn c20(ctx: &RunCtx) -> i32 {
             Case::Retry(p, res) => misc::c20_retry(p, res, json!({"family": "S-stubs", "case": "retry", "policy": format!("{:?}", p), "results": format!("{:?}", res)})),
         }
     });
+    let mut agg = agg;
+    let mut extra = BTreeMap::new();
+    if ctx.thorough() {
+        miri_tier(ctx, &mut agg, &mut extra);
+    }
     let rep = Report {
         level: "exploration",
         rule: "S-stubs: the real RoundRobin / ConsistentHash / Retry stubs over recording backends: round-robin after every prefix of sequential runs (1..17 backends, clones interleaved) and at the end of real-thread concurrent runs; consistent hash as a function into valid indices for 6 hashers including adversarial ones; retry against every boolean policy vector up to length 6 x 3 result patterns (attempt numbers, request identity by Arc pointer and value, last result returned). Distinct = distinct case parameters".into(),
         agg,
-        extra: BTreeMap::new(),
+        extra,
         assumptions: vec!["counter wrap-around (2^64 calls) is out of reach of any execution".into()],
         required_cells: vec!["C20.rr.seq.backends1".into(), "C20.rr.seq.backends17".into(), "C20.rr.conc.threads16".into(), "C20.ch.hasher.const-u64max".into(), "C20.ch.hasher.RandomState".into(), "C20.retry.attempts1".into(), "C20.retry.attempts7".into()],
         exhaustive: None,
@@ -1666,4 +1691,39 @@ fn c17(ctx: &RunCtx) -> i32 {
         exhaustive: None,
     };
     finish(ctx, rep)
+}
+
+// ------------------------------------------------------------------------------------------
+// Miri tier (thorough only): UB / data races in the code reached through tarpc, weak-memory
+// outcomes of the Relaxed counters, on a reduced cross-thread workload
+
+fn miri_tier(ctx: &RunCtx, agg: &mut Agg, extra: &mut BTreeMap<String, Value>) {
+    let dir = format!("{}/harness", ctx.verif_dir);
+    let seeds = 16;
+    let r = std::process::Command::new("cargo")
+        .current_dir(&dir)
+        .env("MIRIFLAGS", format!("-Zmiri-disable-isolation -Zmiri-many-seeds=0..{seeds}"))
+        .env("CARGO_TARGET_DIR", format!("{dir}/target/miri"))
+        .args(["+nightly", "miri", "run", "--offline", "--bin", "miri_tier"])
+        .output();
+    match r {
+        Err(e) => agg.inconclusive.push(format!("Miri tier could not be started: {e}")),
+        Ok(o) => {
+            let out = String::from_utf8_lossy(&o.stdout).to_string();
+            let err = String::from_utf8_lossy(&o.stderr).to_string();
+            let oks = out.lines().filter(|l| l.starts_with("MIRI-TIER OK")).count();
+            let ub = err.lines().find(|l| l.contains("Undefined Behavior") || l.contains("Data race")).map(String::from);
+            extra.insert("miri_tier".into(), json!({"seeds": seeds, "runs_ok": oks, "flags": "-Zmiri-disable-isolation -Zmiri-many-seeds", "sample": out.lines().find(|l| l.starts_with("MIRI-TIER")).unwrap_or("")}));
+            if let Some(u) = ub {
+                agg.viols.push((Viol::new(ctx.prop, "miri-undefined-behaviour", format!("Miri reported: {u}")), json!({"family": "miri-tier", "stderr_tail": err.lines().rev().take(30).collect::<Vec<_>>()}), vec![]));
+            } else if out.contains("MIRI-TIER VIOLATION") {
+                let l = out.lines().find(|l| l.contains("MIRI-TIER VIOLATION")).unwrap_or("").to_string();
+                agg.viols.push((Viol::new(ctx.prop, "miri-tier-oracle", l), json!({"family": "miri-tier"}), vec![]));
+            } else if !o.status.success() || oks == 0 {
+                agg.inconclusive.push(format!("Miri tier did not complete (status {:?}): {}", o.status.code(), err.lines().last().unwrap_or("")));
+            } else {
+                *agg.cells.entry("miri-tier.ok".into()).or_default() += oks as u64;
+            }
+        }
+    }
 }
